@@ -418,6 +418,10 @@ def variant_exec(name):
                 c = open(cfgp).read()
                 if name == "alloconly":
                     t = t.replace('memchr = { path = "/repo" }', 'memchr = { path = "/repo", default-features = false, features = ["alloc"] }')
+                elif name == "noalloc":
+                    # neither `std` nor `alloc`: CowBytes is a plain borrow, no Shift-Or, no into_owned
+                    t = t.replace('memchr = { path = "/repo" }', 'memchr = { path = "/repo", default-features = false }')
+                    c = c.replace('rustflags = ["--cfg", "memchr_verif"]', 'rustflags = ["--cfg", "memchr_verif", "--cfg", "memchr_verif_noalloc"]')
                 elif name == "avx2ct":
                     c = c.replace('rustflags = ["--cfg", "memchr_verif"]', 'rustflags = ["--cfg", "memchr_verif", "-C", "target-feature=+avx2"]')
                 else:
